@@ -119,10 +119,27 @@ def b_quad(ctx):
     warnings.simplefilter('ignore')
     stds = [1e-4, 1e-3, 0.01, 0.05, 0.2, 1.0]
     deltas = [-7.0, -3.0, -1.0, -0.3, 0.0, 0.3, 1.0, 3.0, 7.0]       # (log10 load median - log10 strength median) in units of sqrt(s_L^2+s_S^2)
-    ctx.bound = f"s_S, s_L in {stds}^2, median distance {deltas} combined standard deviations (closed form from 1e-12 to 1-1e-12), strength median 300"
+    n_samp = 2001 if ctx.tier == 'quick' else 20001
+    n_rand = 240 if ctx.tier == 'quick' else 2000
+    ctx.bound = f"s_S, s_L in {stds}^2, median distance {deltas} combined standard deviations (closed form from 1e-12 to 1-1e-12), strength median 300; plus {n_rand} seeded points with s_S in 1e-5..1e-2, s_L in 0.03..1, distance in +-7 compared relative to min(p_f, 1-p_f) at 1e-3"
     ctx.rule = "non-trivial: s_L != s_S or delta != 0; distinct by (s_S, s_L, delta)"
     ctx.exhaustive = True
-    n_samp = 2001 if ctx.tier == 'quick' else 20001
+    # seeded points in the regime 'strength scatter much smaller than load scatter, medians apart' (added after seed C15-a: the break points of the piecewise
+    # quadrature matter only there), compared relative to the smaller of p_f and 1 - p_f
+    rng = np.random.default_rng(15)
+    for _ in range(n_rand):
+        sS, sL, d = 10 ** rng.uniform(-5, -2), 10 ** rng.uniform(-1.5, 0), rng.uniform(-7, 7)
+        if not ctx.mine():
+            continue
+        lm = np.log10(300.0) + d * np.hypot(sS, sL)
+        want = float(norm.cdf(d))
+        got = float(FailureProbability(300.0, sS).pf_norm_load(10 ** lm, sL))
+        ctx.case(True, key=('narrow', round(sS, 12), round(sL, 12), round(d, 9)))
+        if not (0.0 <= got <= 1.0) or abs(got - want) > 1e-3 * min(want, 1.0 - want):
+            ctx.fail('C15:quadrature:narrow-strength:tail-relative', f'pf_norm_load = {got:.9e}, closed form Phi({d:.4f}) = {want:.9e} (s_S={sS:.4e}, s_L={sL:.4e}): relative to the tail {abs(got - want) / min(want, 1 - want):.2e}',
+                     f"import numpy as np\nfrom scipy.stats import norm\nfrom pylife.strength.failure_probability import FailureProbability\n"
+                     f"got = FailureProbability(300.0, {sS!r}).pf_norm_load(10**(np.log10(300.0) + {d!r} * np.hypot({sS!r}, {sL!r})), {sL!r})\nw = norm.cdf({d!r})\nprint(got, w)\n"
+                     f"assert abs(got - w) <= 1e-3 * min(w, 1 - w)\n")
     for sS, sL in itertools.product(stds, stds):
         if not ctx.mine():
             continue
